@@ -393,6 +393,9 @@ if __name__ == "__main__":
         except Unsupported as e:
             print("UNSUPPORTED %s" % e)
             sys.exit(3)
+        except Exception as e:  # a construct the parser or the interpreter does not know: no verdict
+            print("UNSUPPORTED (interpreter error) %r" % e)
+            sys.exit(3)
         for b in bad:
             print("MISMATCH %s(s=%s, c=%d) with the data at address = %d mod 32: kernel %s, definition %s (bytes around the argument: %d)"
                   % (b["entry"], b["s"], b["c"], b["align"], b["kernel"], b["definition"], b["junk"]))
